@@ -62,6 +62,10 @@ func init() {
 				e, scope := c05Engine(c)
 				runG1(c, e)
 				runCsvContract(c, scope)
+				runG2(c, e)
+				runG4(c, e)
+				runG5(c, e)
+				runInitConstants(c)
 			}},
 		},
 	})
